@@ -120,6 +120,37 @@ theorem prefix_irrelevant : Statement_prefix_irrelevant := by
   have hne' : ¬ p' = p := fun e => hne e.symm
   simp [resolve1, Prologue.bind, lookupPrefix, hne']
 
+/-- `SPARQLProcessor.query(text, initNs)` — the string path of `Graph.query`: every call parses and
+    translates the text against the prologue of *that* call (its `initNs`, i.e. the graph's bindings unless
+    given, then the text's own declarations) and evaluates; the processor keeps nothing from one call to the
+    next (there is no translation cache in the code, so the model has no state to thread). -/
+def runTexts (intern : List Nat → Term) {n : Nat} :
+    List (Prologue × Store × List (Sum (Fin n) STerm × Sum (Fin n) STerm × Sum (Fin n) STerm)) →
+      List (Option (List (Row n)))
+  | [] => []
+  | (pr, st, ts) :: rest => evalSpelled pr intern st ts :: runTexts intern rest
+
+/-- A sequence of string queries, the same text or not, under the same or different prefix bindings, on the
+    same or different graphs: each call answers as it would alone; and one prefixed name evaluated under two
+    prologues that give its prefix different namespaces denotes the respective namespace ++ local part each
+    time, whatever came before. -/
+def Statement_string_query_stateless : Prop :=
+  (∀ (intern : List Nat → Term) (n : Nat)
+      (calls : List (Prologue × Store × List (Sum (Fin n) STerm × Sum (Fin n) STerm × Sum (Fin n) STerm))),
+      runTexts intern calls = calls.map fun c => evalSpelled c.1 intern c.2.1 c.2.2) ∧
+  (∀ (pr : Prologue) (p : Nat) (ns1 ns2 loc : List Nat),
+      resolve1 (pr.bind p ns1) (.pname p loc) = some (ns1 ++ loc) ∧
+      resolve1 (pr.bind p ns2) (.pname p loc) = some (ns2 ++ loc) ∧
+      resolve1 ((pr.bind p ns1).bind p ns2) (.pname p loc) = some (ns2 ++ loc))
+
+theorem string_query_stateless : Statement_string_query_stateless := by
+  refine ⟨fun intern n calls => ?_, fun pr p ns1 ns2 loc => by simp [resolve1, Prologue.bind, lookupPrefix]⟩
+  induction calls with
+  | nil => rfl
+  | cons c rest ih =>
+    obtain ⟨pr, st, ts⟩ := c
+    simp [runTexts, ih]
+
 /-! ## 3. initBindings against a VALUES row -/
 
 /-- For the fragment `SELECT pv|* { BGP . { SELECT pv' { BGP' } } FILTER e }` (sub-select and filter
